@@ -178,6 +178,12 @@ structure Px.Lawful {α σ : Type} (P : Px α σ) : Prop where
   inv_inv : ∀ x, P.inv (P.inv x) = x
   load_store : ∀ d x, P.load d (P.store d x) = x
 
+/-- The laws at ONE depth: what the round trip of a document of that depth needs (a concrete
+arithmetic has them at the depths the pipeline handles, 8, 16 and 32, not at every natural). -/
+structure Px.LawfulAt {α σ : Type} (P : Px α σ) (d : Nat) : Prop where
+  inv_inv : ∀ x, P.inv (P.inv x) = x
+  load_store : ∀ x, P.load d (P.store d x) = x
+
 /-- PIL's `Image.convert`. -/
 structure Pil (α : Type) where
   conv : Mode → Image α → Image α
